@@ -162,11 +162,14 @@ pub fn finish(spec: &Spec, tier: &str, seed: u64, wall_s: f64, rep: &WorkerRepor
         }
     }
     let distinct = rep.nontrivial.len() as u64;
+    // every evidence file shows actual cases: if a worker recorded none explicitly, the identifiers
+    // of the first non-trivial cases are written out
+    let samples: Vec<Value> = if rep.samples.is_empty() { rep.nontrivial.iter().take(5).map(|k| json!({"case": k})).collect() } else { rep.samples.clone() };
     let mut coverage = json!({
         "evaluations": rep.evaluations,
         "distinct_nontrivial": distinct,
         "rule": spec.rule,
-        "samples": rep.samples,
+        "samples": samples,
         "exhaustive": spec.exhaustive,
         "inconclusive": rep.inconclusive,
         "inconclusive_notes": rep.inconclusive_notes,
